@@ -62,7 +62,10 @@ def _unicode_search(root, repo, args, timeout=900):
 def run_searcher(root, repo, name, pid, obligations, seed):
     if name == "unicode":
         hs = [o.split("::")[-1] for o in obligations]
-        p = _unicode_search(root, repo, hs)
+        if "names_resolve_and_agree" in hs:
+            p = _unicode_search(root, repo, ["--names"])
+        else:
+            p = _unicode_search(root, repo, hs)
         w = None
         for line in p.stdout.split("\n"):
             if line.startswith("WITNESS "):
